@@ -16,6 +16,15 @@
 (*                                        decompresses)                    *)
 (*   {"ev":"Rewrite","i":I,"k":K,"recs":[..]}  O_TRUNC / write below the   *)
 (*                                        end: records after K replaced    *)
+(*   {"ev":"Member","i":I}                write(2) put the first bytes of  *)
+(*                                        a gzip member at the end of I    *)
+(*   {"ev":"Died"}                        the traced process is gone       *)
+(*                                        (exit / SIGKILL); a restart may  *)
+(*                                        follow.  After it, Append lists  *)
+(*                                        what the later writes COMPLETED; *)
+(*                                        FsAppend decides whether a       *)
+(*                                        reader can get to it (not after  *)
+(*                                        a torn member)                   *)
 (*   {"ev":"Fsync","i":I}                 fsync/fdatasync returned 0       *)
 (*   {"ev":"Link","s":N,"d":N}            link(at) returned 0              *)
 (*   {"ev":"Unlink","n":N}                unlink(at) returned 0            *)
@@ -46,23 +55,26 @@ Trace == ndJsonDeserialize("trace.ndjson")
 VARIABLE l
 tvars == <<avars, l>>
 
-TraceInit == /\ dir = <<>> /\ data = <<>> /\ dur = <<>> /\ fin = {} /\ epoch = 0
+TraceInit == /\ dir = <<>> /\ data = <<>> /\ dur = <<>> /\ tail = <<>> /\ fin = {} /\ epoch = 0
              /\ l = 1 /\ TLCSet(1, 1) /\ TLCSet(2, <<>>)
 
 IsEvent(e) == l <= Len(Trace) /\ Trace[l].ev = e /\ l' = l + 1
 
 TReset  == /\ IsEvent("Reset")
-           /\ dir' = <<>> /\ data' = <<>> /\ dur' = <<>> /\ fin' = {} /\ epoch' = epoch + 1
+           /\ dir' = <<>> /\ data' = <<>> /\ dur' = <<>> /\ tail' = <<>> /\ fin' = {} /\ epoch' = epoch + 1
 TPre    == /\ IsEvent("Pre")
            /\ LET e == Trace[l]  i == NewIno IN
               /\ e.n \notin DOMAIN dir
               /\ dir'  = dir  @@ (e.n :> i)
               /\ data' = data @@ (i :> [k \in 1..e.sz |-> 0 - i])
               /\ dur'  = dur  @@ (i :> e.sz)
+              /\ tail' = tail @@ (i :> "clean")
            /\ UNCHANGED <<fin, epoch>>
 TCreate == IsEvent("Create") /\ FsCreate(Trace[l].n)
 TAppend == IsEvent("Append") /\ FsAppend(Trace[l].i, Trace[l].recs)
 TRewrite == IsEvent("Rewrite") /\ FsRewrite(Trace[l].i, Trace[l].k, Trace[l].recs)
+TMember == IsEvent("Member") /\ FsOpenMember(Trace[l].i)
+TDied   == IsEvent("Died")   /\ ProcessDeath
 TFsync  == IsEvent("Fsync")  /\ FsFsync(Trace[l].i)
 TLink   == IsEvent("Link")   /\ FsLink(Trace[l].s, Trace[l].d)
 TUnlink == IsEvent("Unlink") /\ FsUnlink(Trace[l].n)
@@ -70,14 +82,15 @@ TRename == IsEvent("Rename") /\ FsRename(Trace[l].s, Trace[l].d)
 TFin    == IsEvent("Fin")    /\ Fin(Trace[l].m)
 TSettled == /\ IsEvent("Settled")
             /\ fin' = fin \cup Range(Trace[l].m)
-            /\ UNCHANGED <<dir, data, dur, epoch>>
+            /\ UNCHANGED <<dir, data, dur, tail, epoch>>
 \* PowerLoss of FileLoggerAbs with the least it may leave (cut = dur)
 TPowerLoss == /\ IsEvent("PowerLoss")
               /\ data' = [i \in DOMAIN data |-> SubSeq(data[i], 1, dur[i])]
               /\ epoch' = epoch + 1
+              /\ tail' = Torn
               /\ UNCHANGED <<dir, dur, fin>>
 
-TraceNext == TReset \/ TPre \/ TCreate \/ TAppend \/ TRewrite \/ TFsync \/ TLink \/ TUnlink \/ TRename \/ TFin \/ TSettled \/ TPowerLoss
+TraceNext == TReset \/ TPre \/ TCreate \/ TAppend \/ TRewrite \/ TFsync \/ TLink \/ TUnlink \/ TRename \/ TFin \/ TSettled \/ TPowerLoss \/ TMember \/ TDied
 TraceSpec == TraceInit /\ [][TraceNext]_tvars
 
 HW == IF l > TLCGet(1) THEN TLCSet(1, l) /\ TLCSet(2, [dir |-> dir, dur |-> dur, fin |-> fin]) ELSE TRUE
